@@ -190,11 +190,11 @@ META = {
                    "document / HDF5 store the real writers emit (all 7 vocabulary types, all representation states, all-zero tables, tables that came out of from_json / parse_biom_table / from_hdf5; through _validate_hdf5 and through the command entry _validate_table with file sniffing / opening stubbed) is accepted, and an "
                    "accepted numeric document loads through the real from_json to the declared shape, ids and values (solver); hand-made dense documents; the HDF5 "
                    "validator under deletion of each required attribute / group / dataset and shape / attribute corruption.",
-    'encoded': {'biom/cli/table_validator.py': ['_validate_json', '_validate_hdf5', '_valid_sparse_data', '_valid_dense_data', '_valid_rows',
+    'encoded': {'biom/cli/table_validator.py': ['_validate_table', 'run', '_validate_json', '_validate_hdf5', '_valid_sparse_data', '_valid_dense_data', '_valid_rows',
                                                 '_valid_columns', '_valid_id', '_valid_metadata', '_valid_shape', '_valid_data', '_valid_type',
                                                 '_valid_nnz', '_valid_format', '_valid_format_url', '_valid_date', '_valid_hdf5_metadata_v210',
                                                 '_valid_matrix_type', '_valid_matrix_element_type', '_valid_generated_by', '_is_int'],
-                'biom/cli/table_validator.py (entry)': ['_validate_table', 'run'], 'biom/table.py': ['to_json', 'to_hdf5', 'from_json', '_to_sparse']},
+                'biom/table.py': ['to_json', 'to_hdf5', 'from_json', '_to_sparse']},
     'bounds': {'quick': {'crosshair': '45 single mutations x unbounded symbolic shape / coordinates (2 data entries)', 'sx': '2x2 tables, 7 types; dense 2x2, 2x3'},
                'thorough': {'crosshair': '+ all pairs of mutations'}},
     'outside': ['TableValidator.run file handling (is_hdf5_file / biom_open), real HDF5 files', 'element-type and index-range checks INSIDE HDF5 datasets (the HDF5 validator has none; '
